@@ -210,9 +210,11 @@ class MergeEngine:
         )
 
         if o.offset != "/":
-            # wrap the results of new_cset to pass through an offset generator
-            o.cset_sources["old_cset"] = post_curry(
-                o.generate_offset_cset, o.cset_sources["old_cset"]
+            # wrap the recorded contents to pass through an offset generator;
+            # old_cset is the livefs intersection of that, so the offset has
+            # to be applied before the livefs is consulted.
+            o.cset_sources["raw_old_cset"] = post_curry(
+                o.generate_offset_cset, o.cset_sources["raw_old_cset"]
             )
 
         o.old = pkg
